@@ -245,6 +245,9 @@ def raster_cases(draw):
     elif kind == 'pam':
         d = draw(st.one_of(st.just('DEFAULT'), colors.opaque()))
         li = draw(st.one_of(st.just('DEFAULT'), colors.opaque(none_ok=True)))
+        if li is None and draw(st.integers(0, 2)) == 0:
+            # a translucent dark colour on a transparent background (RGB_ALPHA)
+            d = draw(st.sampled_from(['#ff000080', [255, 0, 0, 128], [1, 2, 3, 4], '#0000ffcc', [10, 20, 30, 0.5]]))
         if d != 'DEFAULT':
             opts['dark'] = d
         if li != 'DEFAULT':
@@ -266,7 +269,7 @@ def raster_cases(draw):
     if kind in ('xbm', 'xpm') and draw(st.integers(0, 3)) == 0:
         opts['name'] = draw(st.sampled_from(['qr', 'my_img', 'A1', '_x']))
     if kind == 'txt' and draw(st.integers(0, 2)) == 0:
-        opts['dark'], opts['light'] = draw(st.sampled_from([('X', '_'), ('#', ' '), ('1', '0'), ('██', '  ')]))
+        opts['dark'], opts['light'] = draw(st.sampled_from([('X', '_'), ('#', ' '), ('1', '0'), ('██', '  '), ('0', '1'), ('10', '01'), ('a0', 'b1'), ('1', ' ')]))
     if kind == 'ans' and draw(st.booleans()):
         route = 'terminal'
         opts.pop('scale', None)
